@@ -13,7 +13,7 @@ Inductive iout :=
 | IStart (a : string)
 | IStop (a : string).
 
-Inductive cond_shape := CThroughout | CMoodIs (m : string) | CSigGt (x : var) (k : Q) | COther.
+Inductive cond_shape := CThroughout | CNever | CMoodIs (m : string) | CSigGt (x : var) (k : Q) | COther.
 
 Record aud_case := {
   k_cfg : acfg;
@@ -192,6 +192,7 @@ Fixpoint expected_judgements (sh : cond_shape) (mood : string) (holds : bool) (i
 Definition expected_for (sh : cond_shape) (es : list event) : option (list (nat * bool)) :=
   match sh with
   | CThroughout => Some ((0%nat, true) :: expected_judgements sh "clear" true 1 es)
+  | CNever => Some []                                  (* a condition that never holds: no period at all *)
   | CMoodIs m0 => Some (expected_judgements sh "clear" false 1 es)   (* never "clear": moods are red / blue *)
   | CSigGt _ _ => Some (expected_judgements sh "clear" false 1 es)
   | COther => None
@@ -287,3 +288,77 @@ Definition aud_oracle_code (k : aud_case) (a : string) (sh : cond_shape) : N :=
 Definition case_oracle_code (k : aud_case) : N :=
   ((if Z.eqb (k_status k) 2 then 32 else 0)
    + fold_left N.lor (map (fun '(a, sh) => aud_oracle_code k a sh) (k_shapes k)) 0)%N.
+
+(** * The verdicts of a period against the plain meaning over its observations
+
+    For an auditor whose activation condition has one of the shapes above and
+    whose predicate is a plain comparison of one scalar signal with a constant,
+    the observations of each period can be read off the events alone: a round
+    is an observation iff it samples the predicate's signal (and, for an
+    activation by a signal, that signal too: a round that does not sample it
+    leaves the auditor alone), from the round that opens the period to the
+    round that closes it, both included.  The result codes reported in the
+    period must be those of the modality's automaton run afresh over exactly
+    these observations, followed by the end judgement. *)
+Inductive pred_shape := PSigCmp (x : var) (gt : bool) (k : Q).
+
+Definition sample_of (x : var) (vs : list (var * value)) : option Q :=
+  match find (fun '(y, _) => var_eqb x y) vs with
+  | Some (_, VNum q) => Some q
+  | _ => None
+  end.
+
+Fixpoint observations (sh : cond_shape) (p : pred_shape) (i : nat) (es : list event) (lo : nat) (hi : option nat) : list bool :=
+  match es with
+  | [] => []
+  | e :: tl =>
+      let rest := observations sh p (S i) tl lo hi in
+      if Nat.leb lo i && match hi with Some h => Nat.leb i h | None => true end then
+        match e with
+        | ESig _ vs =>
+            let act_ok := match sh with
+                          | CSigGt y _ => match sample_of y vs with Some _ => true | None => false end
+                          | _ => true
+                          end in
+            match p with
+            | PSigCmp x gt k =>
+                match sample_of x vs with
+                | Some q => if act_ok then (if gt then negb (Qle_bool q k) else negb (Qle_bool k q)) :: rest else rest
+                | None => rest
+                end
+            end
+        | _ => rest
+        end
+      else rest
+  end.
+
+Definition pred_oracle_bad (k : aud_case) (a : string) (sh : cond_shape) (p : pred_shape) : bool :=
+  let js := judge_of_aud a (k_judge k) in
+  let ps := periods_of js in
+  let reps := reports_of_aud a (k_coll k) in
+  if negb (Z.eqb (k_status k) 0) || same_index_restart js then false else
+  match expected_for sh (k_events k), member_expect (k_cfg k) a with
+  | Some ex, Some (Some tbl) =>
+      if negb (judgements_eqb js ex) then false            (* the periods themselves are wrong: clause 16 reports that *)
+      else negb (forallb (fun '(i, j) =>
+                   let codes := codes_in reps i j in
+                   if existsb (Z.eqb 1) codes then true else
+                   match j with
+                   | Some _ =>
+                       match run_period tbl (observations sh p 1 (k_events k) i j) with
+                       | Some vs => list_eqb Z.eqb codes (map verdict_code vs)
+                       | None => true
+                       end
+                   | None => true
+                   end) ps)
+  | _, _ => false
+  end.
+
+Definition case_pred_oracle_bad (k : aud_case) (ps : list (string * cond_shape * pred_shape)) : bool :=
+  existsb (fun '(a, sh, p) => pred_oracle_bad k a sh p) ps.
+
+Fixpoint bad_indices2 {A B} (f : A -> B -> bool) (i : nat) (l : list A) (m : list B) : list nat :=
+  match l, m with
+  | a :: l', b :: m' => (if f a b then [i] else []) ++ bad_indices2 f (S i) l' m'
+  | _, _ => []
+  end.
